@@ -213,7 +213,7 @@ pub struct MailboxConfig { pub read: Option<Mailbox>, pub write: Option<Mailbox>
 pub struct SubDeviceConfig { pub mailbox: MailboxConfig }
 pub struct SubDeviceRef<'a> { pub maindevice: &'a MainDevice, pub config: SubDeviceConfig }
 
-/// "`data` was written (FPWR, working counter checked) to `len` bytes at `address` of this SubDevice"
+/// "`data` was sent (FPWR through WrappedWrite::send, which does not look at the working counter) to `len` bytes at `address` of this SubDevice"
 pub uninterp spec fn mbx_written(address: u16, len: u16, data: Seq<u8>) -> bool;
 /// "`reply` is what was read from the SubDevice's response mailbox `m` once it reported full"
 pub uninterp spec fn mbx_reply(m: Mailbox, reply: Seq<u8>) -> bool;
